@@ -98,7 +98,7 @@ func c14B1t6(c *Ctx) {
 						same = false
 					}
 				}
-				r.Check(same && mustPass(fn, blk, loopOut), key+".success-lengths", c.ipos(e.Instr), "success (after the loop) exactly for lengths that are multiples of %d: reaching set %s", v.g, setString(reach))
+				r.Check(same && exitMustPass(fn, e, loopOut), key+".success-lengths", c.ipos(e.Instr), "success (after the loop) exactly for lengths that are multiples of %d: reaching set %s", v.g, setString(reach))
 			case matches("load(global<repo/pkg/encoding/b1t6.ErrInvalidLength>)", et):
 				nLen++
 				bad := false
@@ -107,11 +107,11 @@ func c14B1t6(c *Ctx) {
 						bad = true
 					}
 				}
-				r.Check(!bad && len(reach) > 0 && mustPass(fn, blk, loopOut) && !mustPass(fn, blk, badE), key+".length-error", c.ipos(e.Instr), "ErrInvalidLength after the group loop, exactly for lengths not a multiple of %d (so an invalid group is reported first): %s", v.g, setString(reach))
+				r.Check(!bad && len(reach) > 0 && exitMustPass(fn, e, loopOut) && !exitMustPass(fn, e, badE), key+".length-error", c.ipos(e.Instr), "ErrInvalidLength after the group loop, exactly for lengths not a multiple of %d (so an invalid group is reported first): %s", v.g, setString(reach))
 			default:
 				nBad++
 				w, _ := ana.Find("load(global<repo/pkg/encoding/b1t6.ErrInvalidTrits>)", et)
-				r.Check(w != nil && mustPass(fn, blk, badE), key+".invalid-group", c.ipos(e.Instr), "invalid-trits error (wrapping ErrInvalidTrits) exactly when the group routine rejects, inside the loop")
+				r.Check(w != nil && exitMustPass(fn, e, badE), key+".invalid-group", c.ipos(e.Instr), "invalid-trits error (wrapping ErrInvalidTrits) exactly when the group routine rejects, inside the loop")
 			}
 			// count
 			if v.name == "Decode" {
